@@ -1,6 +1,6 @@
 #!/bin/bash
 # usage: seed_try.sh <seed dir name> <check id> - demo both ways + one check against a scratch export with the patch (never touches /repo)
-s=$1; c=$2; d=/verif/seeded/$s
+s=$1; c=$2; only=${3:+--only $3}; d=/verif/seeded/$s
 tmp=$(mktemp -d /tmp/seedtry_XXXX)
 git -C /repo archive HEAD src/dliswriter | tar -x -C $tmp
 orig=$(cd $tmp && PYTHONPATH=$tmp/src timeout 900 /venv/bin/python $d/demo.py 2>&1 | tail -1)
@@ -8,7 +8,7 @@ orig=$(cd $tmp && PYTHONPATH=$tmp/src timeout 900 /venv/bin/python $d/demo.py 2>
 mut=$(cd $tmp && PYTHONPATH=$tmp/src timeout 900 /venv/bin/python $d/demo.py 2>&1 | tail -1)
 mkdir -p $tmp/evidence
 st=$(date +%s)
-VF_REPO_SRC=$tmp/src VF_EVIDENCE_DIR=$tmp/evidence VF_JOBS=${VF_JOBS:-4} /verif/vcheck $c > $tmp/log 2>&1; rc=$?
+VF_REPO_SRC=$tmp/src VF_EVIDENCE_DIR=$tmp/evidence VF_JOBS=${VF_JOBS:-4} /verif/vcheck $c $only > $tmp/log 2>&1; rc=$?
 echo "$s demo original: $orig | mutant: $mut | check=$c rc=$rc $(( $(date +%s)-st ))s $(grep -E '^VIOLATION|^HARNESS-ERROR|^INCONCLUSIVE' $tmp/log | sed 's/.*replays\///' | head -4 | tr '\n' ' ' | cut -c1-300)"
 cp $tmp/log /tmp/seedtry_${s}_$c.log
 rm -rf $tmp
